@@ -10,7 +10,8 @@ THEOREMS = ['C08_length', 'C08_pointwise', 'C08_kept_entirely', 'C08_cleared_ent
             'C08_guard', 'C08_small_k']
 RULE = ("every boolean array up to a length bound x every min_n_cycles in {0..n+1} plus half-integers (exhaustive), each as a contiguous array and as a strided "
         "view of a larger buffer (every other element / reversed / matrix column), "
-        "then random arrays (several run-length distributions) up to length 2000 and guard cases (empty array, negative k); "
+        "then random arrays (several run-length distributions) up to length 2000 and guard cases (empty array, negative k); the same masks (every one up to length 8, a third "
+        "of the random ones) through detect_bursts_amp and detect_bursts_cycles on a table whose criterion is exactly the mask; "
         "distinct = distinct (array, k, layout); non-trivial = the array contains at least one True")
 ASSUMPTIONS = ["min_n_cycles is shipped exactly (int or dyadic float)",
                "in-place mutation of the caller's array is recorded but not judged (not part of the statement)"]
@@ -29,11 +30,29 @@ def _layout(m, lay):
         mat = np.ones((len(arr), 3), dtype=bool); mat[:, 1] = arr; return mat[:, 1]
     return arr
 
-def _impl(m, k, lay='c'):
+def _impl(m, k, lay='c', raw=None):
     from bycycle.burst.utils import check_min_burst_cycles
-    arr = _layout(m, lay)
     kk = Fraction(k)
     kv = int(kk) if kk.denominator == 1 else float(kk)
+    if lay in ('amp', 'cyc'):
+        # the filter AS ITS CALLERS USE IT (it is the foundation of C06 / C07): the labels a detector returns for a table whose criterion is exactly the
+        # mask are the filter's answer for the mask - whatever the filter does with its argument (in place or on a copy) and whatever else the detector does
+        import pandas as pd, warnings
+        from bycycle.burst import detect_bursts_amp, detect_bursts_cycles
+        try:
+            with warnings.catch_warnings():
+                warnings.simplefilter('ignore')
+                if lay == 'amp':
+                    df = detect_bursts_amp(pd.DataFrame({'burst_fraction': np.asarray(m, dtype=float)}), burst_fraction_threshold=1, min_n_cycles=kv)
+                else:       # (detect_bursts_cycles never labels the first and the last cycle: the filter sees the criterion with a False at both ends,
+                    v = np.asarray(m if raw is None else raw, dtype=float)      #  `m`; the table's criterion itself, `raw`, may hold there)
+                    df = detect_bursts_cycles(pd.DataFrame({c: v for c in ('amp_fraction', 'amp_consistency', 'period_consistency', 'monotonicity')}),
+                                              amp_fraction_threshold=.5, amp_consistency_threshold=.5, period_consistency_threshold=.5, monotonicity_threshold=.5,
+                                              min_n_cycles=kv)
+            return ['ok', proto.enc_bits(list(np.asarray(df['is_burst'].values).astype(bool)))]
+        except Exception as e:
+            return ['err', type(e).__name__]
+    arr = _layout(m, lay)
     try:
         if (len(m) + sum(m)) % 3 == 0:
             # a session: the same mask was filtered a moment ago and the caller went on WRITING into the array it got back
@@ -79,6 +98,16 @@ def generate(ctx):
                 ln = int(rng.integers(1, 12)); m[pos:pos + ln] = val; pos += ln; val = not val
         k = rng.choice(['0', '1', '2', '3', '4', '5', '8', '11', '7/2', str(n), str(n + 1)])
         cases.append(dict(m=proto.enc_bits(m), k=str(k), lay=str(rng.choice(['c', 'c'] + LAYOUTS))))
+        if i % 3 == 0 and '/' not in str(k):      # the same mask through the two detectors that call the filter
+            cases.append(dict(m=proto.enc_bits(m), k=str(k), lay='amp'))
+            m2 = m.copy(); m2[0] = False; m2[-1] = False
+            cases.append(dict(m=proto.enc_bits(m2), k=str(k), lay='cyc', raw=proto.enc_bits(m)))
+    for n in range(2, 9):      # and exhaustively for short tables
+        for bits in itertools.product('01', repeat=n):
+            m = ''.join(bits)
+            for k in range(0, n + 1):
+                cases.append(dict(m=m, k=str(k), lay='amp'))
+                cases.append(dict(m='0' + m[1:-1] + '0', k=str(k), lay='cyc', raw=m))
     for k in ['-1', '-1/2', '0']:
         cases.append(dict(m='e', k=k)); cases.append(dict(m='0110', k=k))
     return cases
@@ -95,11 +124,11 @@ def evaluate(ctx, cases):
     for i, c in enumerate(cases):
         model, spec = ans[2 * i], ans[2 * i + 1]
         m = proto.dec_bits(c['m'])
-        impl = _impl(m, c['k'], c.get('lay', 'c'))
+        impl = _impl(m, c['k'], c.get('lay', 'c'), raw=(proto.dec_bits(c['raw']) if c.get('raw') else None))
         judge_ok = impl == spec
         corr_ok = impl == model
         ctx.hist('outcome', impl[0] if impl[0] == 'ok' else impl[1]); ctx.hist('layout', c.get('lay', 'c'))
-        out.append(Result(c, judge_ok=judge_ok, corr_ok=corr_ok, sig=(c['m'], c['k'], c.get('lay', 'c')),
+        out.append(Result(c, judge_ok=judge_ok, corr_ok=corr_ok, sig=(c['m'], c['k'], c.get('lay', 'c'), c.get('raw')),
                           nontrivial=('1' in c['m']),
                           info=dict(impl=impl, model=model, spec=spec)))
     return out
@@ -113,6 +142,10 @@ def shrink(ctx, case):
         changed = False
         for i in range(len(cur['m'])):
             cand = dict(cur); cand['m'] = cur['m'][:i] + cur['m'][i + 1:] or 'e'
+            if cur.get('raw'):      # (the detector route: the table's criterion shrinks with the mask; its ends stay forced to False in the mask)
+                cand['raw'] = cur['raw'][:i] + cur['raw'][i + 1:]
+                if len(cand['raw']) < 2: continue
+                cand['m'] = '0' + cand['raw'][1:-1] + '0'
             if evaluate(ctx, [cand])[0].judge_ok is False:
                 cur = cand; changed = True; break
     return cur
